@@ -247,6 +247,10 @@ def _seq_parts(it):
         else:
             return None
         return [("for", p[1], ap(p[2])) if p[0] == "for" else ap(p) for p in inner]
+    if it[0] == "call" and it[1] == "Option::map" and len(it[2]) == 2 and it[2][1][0] == "closure" and it[2][1][2] == 1:
+        return [_mk_if(_let("v1::Some($)", it[2][0]), _apply(it[2][1], _proj_some(it[2][0])), ("lit", "()"))]       # an Option as a 0-or-1 element sequence
+    if it[0] == "call" and it[1] == "then" and len(it[2]) == 2:
+        return [_mk_if(it[2][0], it[2][1], ("lit", "()"))]
     if it[0] in ("call", "field", "param", "proj", "elem", "index") and not (it[0] == "call" and it[1] in ("Iterator::filter", "Iterator::filter_map", "Iterator::flat_map",
                                                                                                          "Iterator::enumerate", "Iterator::zip", "Iterator::rev")):
         return [("for", it, ("elem", it))]
@@ -946,6 +950,10 @@ def _mk_if_raw(c, t, e):
         return ("early", [(_not(c), e)], t)          # `if c { v } else { return .. }` is a guard clause followed by v
     if _diverges(t) and not _diverges(e) and not _is_unit(e):
         return ("early", [(c, t)], e)
+    if t[0] == "if" and t[3] == e and not _diverges(e):
+        return _mk_if_raw(("op", "&&", [c, t[1]]), t[2], e)          # if a { if b { x } else { y } } else { y }  ==  if a && b { x } else { y }
+    if t[0] == "try" and e[0] == "try":
+        return ("try", _mk_if_raw(c, t[1], e[1]))                    # if c { x? } else { y? }  ==  (if c { x } else { y })?
     if t == ("lit", True) and e == ("lit", False):
         return c
     if t == ("lit", False) and e == ("lit", True):
@@ -2905,6 +2913,10 @@ class Norm:
             st = self._t(expr)
             if (info or {}).get("rep") and st[0] == "call" and st[1] == "Iterator::collect" and len(st[2]) == 1:
                 st = st[2][0]       # `#( #xs )*` walks what it is given: a collected Vec and the iterator it was collected from give the same tokens
+            if (info or {}).get("rep") and st[0] == "call" and st[1] == "Iterator::chain":
+                parts = _seq_parts(st)
+                if parts is not None:
+                    st = ("call", "vec+", parts)
             if st[0] == "tpl" and st[1] == "quote" and not (info or {}).get("rep"):
                 # a token stream built by another quote! and interpolated as a whole: its tokens stand in its place
                 base = len(slots)
